@@ -117,3 +117,29 @@ func UnpairedTopTwo(ds []float64, ns []int) (float64, int) {
 	}
 	return best[1], who[1]
 }
+
+// want:ZEROSLOT the second slot is read although a one-element input never stores it.
+func SecondBestBad(ds []float64) float64 {
+	var best [2]float64
+	for i, d := range ds {
+		if i < 2 {
+			best[i] = d
+		} else if d > best[1] {
+			best[1] = d
+		}
+	}
+	return best[0] + best[1]
+}
+
+// clean:ZEROSLOT
+func SecondBestGood(ds []float64) float64 {
+	best := [2]float64{-1e300, -1e300}
+	for i, d := range ds {
+		if i < 2 {
+			best[i] = d
+		} else if d > best[1] {
+			best[1] = d
+		}
+	}
+	return best[0] + best[1]
+}
